@@ -151,4 +151,13 @@ CHECKS = {
             "assumptions": ["functions that by contract wait for the machine (Sync/Async/WaitFor/Ask/Cant/Eval/Dispose...) are not called from inside a handler and 'blocks' is only a verdict for them on a disposed machine", "string parameters receive an existing state name; unknown state names panic by documentation", "functions needing network, environment or dedicated states are listed as skipped in the evidence notes"],
         },
     },
+    "C10": {
+        "pkg": "harness/c10",
+        "instr": {"features": [], "pkgs": ["pkg/rpc"], "inject": ["pkg/machine", "pkg/rpc"]},
+        "budget_s": {"quick": 200, "thorough": 1800},
+        "meta": {
+            "rule": "bounded-exhaustive: layouts = state counts 1..3 (thorough 4) x every non-empty tracked subset as allow- or skip-list (and all states) x {schema, no-schema} x {deep, shallow}; per layout all snapshot pairs with base ticks 0..2 and per-state deltas 0..2 (thorough 0..3), queue-tick deltas {0,1,3}, two base queue ticks; plus machine-tick bases {0,1,3} x deltas {0,1,255,256}, queue deltas {2^16-1, 2^16}, tick deltas {2^32-1, 2^32}; plus drift cases (each mirror perturbation of a small grid); each case: real handshake (Server.RemoteHello -> Client.updateStatesSchema), real sourceTracer.TransitionEnd + calcUpdate, real Client.clockUpdate, no network; non-trivial = case with a changed tracked state or a drift",
+            "assumptions": ["source clocks are set through an overlaid test helper (VerifMock) instead of real mutations so that arbitrary snapshots, queue ticks and machine ticks are reachable", "exact round trip is demanded when every delta fits its message field; otherwise only 'not accepted with a wrong mirror'"],
+        },
+    },
 }
